@@ -247,10 +247,11 @@ fn run_ruler(bin: &Path, dir: &Path, args: &[&str]) -> RealRun
 }
 
 /// (workspace files -> (bytes, exec), cache names, decoded history)
-fn observe_real(dir: &Path) -> (BTreeMap<String, (Vec<u8>, bool)>, BTreeSet<String>, DecodedHistory)
+fn observe_real(dir: &Path, explicit: bool) -> (BTreeMap<String, (Vec<u8>, bool)>, BTreeSet<String>, DecodedHistory)
 {
+    let (rdir, rfile) = real_names(explicit);
     let mut ws = BTreeMap::new();
-    fn walk(base: &Path, rel: &str, out: &mut BTreeMap<String, (Vec<u8>, bool)>)
+    fn walk(base: &Path, rel: &str, skip: (&str, &str), out: &mut BTreeMap<String, (Vec<u8>, bool)>)
     {
         let d = if rel.is_empty() { base.to_path_buf() } else { base.join(rel) };
         if let Ok(rd) = fs::read_dir(&d)
@@ -259,18 +260,18 @@ fn observe_real(dir: &Path) -> (BTreeMap<String, (Vec<u8>, bool)>, BTreeSet<Stri
             {
                 let name = e.file_name().to_string_lossy().to_string();
                 let r = if rel.is_empty() { name.clone() } else { format!("{}/{}", rel, name) };
-                if r == ".ruler" || r == RULES_FILE { continue; }
+                if r == skip.0 || r == skip.1 { continue; }
                 let md = match e.metadata() { Ok(m) => m, Err(_) => continue };
-                if md.is_dir() { walk(base, &r, out); }
+                if md.is_dir() { walk(base, &r, skip, out); }
                 else { out.insert(r, (fs::read(e.path()).unwrap_or_default(), md.permissions().mode() & 0o111 != 0)); }
             }
         }
     }
-    walk(dir, "", &mut ws);
+    walk(dir, "", (rdir, rfile), &mut ws);
     let mut cache = BTreeSet::new();
-    if let Ok(rd) = fs::read_dir(dir.join(CACHE_DIR)) { for e in rd.flatten() { cache.insert(e.file_name().to_string_lossy().to_string()); } }
+    if let Ok(rd) = fs::read_dir(dir.join(rdir).join("cache")) { for e in rd.flatten() { cache.insert(e.file_name().to_string_lossy().to_string()); } }
     let mut hist: DecodedHistory = BTreeMap::new();
-    if let Ok(rd) = fs::read_dir(dir.join(HISTORY_DIR))
+    if let Ok(rd) = fs::read_dir(dir.join(rdir).join("history"))
     {
         for e in rd.flatten()
         {
@@ -282,6 +283,13 @@ fn observe_real(dir: &Path) -> (BTreeMap<String, (Vec<u8>, bool)>, BTreeSet<Stri
         }
     }
     (ws, cache, hist)
+}
+
+/// names of the ruler directory and of the rules file in the real run: the defaults, or (for every
+/// other trace) other names given with `--directory` / `--rules`
+fn real_names(explicit: bool) -> (&'static str, &'static str)
+{
+    if explicit { ("alt-state", "alt.rules") } else { (RULER_DIR, RULES_FILE) }
 }
 
 fn observe_model(fs: &Fs) -> (BTreeMap<String, (Vec<u8>, bool)>, BTreeSet<String>, DecodedHistory)
@@ -363,18 +371,19 @@ fn model_trace(sc: &Scenario, ops: &[Op]) -> Option<Vec<(bool, Vec<(String, Stri
 /// are exercised.
 fn apply_real(bin: &Path, dir: &Path, sc: &Scenario, op: &Op, explicit: bool) -> Option<RealRun>
 {
-    let pre: Vec<&str> = if explicit { vec!["--rules", RULES_FILE, "--directory", RULER_DIR] } else { vec![] };
+    let (rdir, rfile) = real_names(explicit);
+    let pre: Vec<&str> = if explicit { vec!["--rules", rfile, "--directory", rdir] } else { vec![] };
     match op
     {
         Op::Edit { path, val } => { let v = sc.edits.iter().find(|(p, _)| p == path).unwrap().1[*val].clone(); write_file(dir, path, &v); None },
         Op::RmLeaf { path } | Op::Delete { path } => { let _ = fs::remove_file(dir.join(path)); None },
         Op::Tamper { path } => { write_file(dir, path, TAMPER_CONTENT.as_bytes()); None },
-        Op::DropCache { name } => { let _ = fs::remove_file(dir.join(CACHE_DIR).join(name)); None },
-        Op::RmRuler => { let _ = fs::remove_dir_all(dir.join(RULER_DIR)); None },
-        Op::RmHistory => { let _ = fs::remove_dir_all(dir.join(HISTORY_DIR)); None },
-        Op::RmCache => { let _ = fs::remove_dir_all(dir.join(CACHE_DIR)); None },
-        Op::RmTable => { let _ = fs::remove_file(dir.join(TABLE_FILE)); None },
-        Op::Rules { k } => { write_file(dir, RULES_FILE, render_rules_spelled(&sc.variants[*k], sc.flat_variants.contains(k)).as_bytes()); None },
+        Op::DropCache { name } => { let _ = fs::remove_file(dir.join(rdir).join("cache").join(name)); None },
+        Op::RmRuler => { let _ = fs::remove_dir_all(dir.join(rdir)); None },
+        Op::RmHistory => { let _ = fs::remove_dir_all(dir.join(rdir).join("history")); None },
+        Op::RmCache => { let _ = fs::remove_dir_all(dir.join(rdir).join("cache")); None },
+        Op::RmTable => { let _ = fs::remove_file(dir.join(rdir).join("current_file_states")); None },
+        Op::Rules { k } => { write_file(dir, rfile, render_rules_spelled(&sc.variants[*k], sc.flat_variants.contains(k)).as_bytes()); None },
         Op::Backdate { .. } | Op::CorruptHistory { .. } | Op::CorruptTable => None,
         Op::SetAside { path } => { let _ = fs::rename(dir.join(path), dir.join(format!("{}.aside", path))); None },
         Op::MoveBack { path } => { let _ = fs::rename(dir.join(format!("{}.aside", path)), dir.join(path)); None },
@@ -402,11 +411,11 @@ pub fn replay_trace_real(bin: &Path, sc: &Scenario, ops: &[Op], dir: &Path) -> O
     let _ = fs::remove_dir_all(dir);
     fs::create_dir_all(dir).ok()?;
     for (p, dom) in &sc.edits { write_file(dir, p, &dom[0]); }
-    write_file(dir, RULES_FILE, render_rules_spelled(&sc.variants[0], sc.flat_variants.contains(&0)).as_bytes());
+    let explicit = ops.len() % 2 == 1;
+    write_file(dir, real_names(explicit).1, render_rules_spelled(&sc.variants[0], sc.flat_variants.contains(&0)).as_bytes());
     for (i, op) in ops.iter().enumerate()
     {
         if i >= model.len() { break; }
-        let explicit = ops.len() % 2 == 1;
         let real = apply_real(bin, dir, sc, op, explicit);
         let (ok, banners, (ws, cache, hist), deterministic) = &model[i];
         if let Some(rr) = &real
@@ -420,7 +429,7 @@ pub fn replay_trace_real(bin: &Path, sc: &Scenario, ops: &[Op], dir: &Path) -> O
                 return Some(format!("step {} {}: status lines differ: real {:?} model {:?}", i, op.short(), rr.banners, banners));
             }
         }
-        let (rws, rcache, rhist) = observe_real(dir);
+        let (rws, rcache, rhist) = observe_real(dir, explicit);
         if !*deterministic
         {
             // schedule-dependent step: only what every schedule agrees on (C06): the bytes
@@ -661,14 +670,24 @@ static START_LOCK: Mutex<()> = Mutex::new(());
 /// worker threads (two threads must not be handed the same free port), and the child must
 /// still be alive after the first successful connect (a child that lost the race for a port
 /// has exited, and the connect reached somebody else's server).
-fn start_server(bin: &Path, dir: &Path) -> Result<Server, String>
+/// `alt`: the ruler directory is moved to another name and given with `--directory` (every other
+/// materialised directory is served that way, so the option is exercised as well as the default)
+fn start_server(bin: &Path, dir: &Path, alt: bool) -> Result<Server, String>
 {
+    const ALT: &str = "alt-state";
+    if alt
+    {
+        let _ = fs::remove_dir_all(dir.join(ALT));
+        fs::rename(dir.join(RULER_DIR), dir.join(ALT)).map_err(|e| format!("cannot move the ruler directory: {}", e))?;
+    }
     let _g = match START_LOCK.lock() { Ok(g) => g, Err(p) => p.into_inner() };
     let mut last = String::new();
     for _attempt in 0..8
     {
         let port = free_port();
-        let child = Command::new(bin).args(["serve", &port.to_string()]).current_dir(dir).stdout(Stdio::null()).stderr(Stdio::null()).spawn().map_err(|e| format!("spawn: {}", e))?;
+        let ps = port.to_string();
+        let args: Vec<&str> = if alt { vec!["--directory", ALT, "serve", &ps] } else { vec!["serve", &ps] };
+        let child = Command::new(bin).args(&args).current_dir(dir).stdout(Stdio::null()).stderr(Stdio::null()).spawn().map_err(|e| format!("spawn: {}", e))?;
         let mut srv = Server { child, port };
         let start = Instant::now();
         let mut connected = false;
@@ -1085,7 +1104,7 @@ pub fn run_serve(rep: &mut Report, tier: &str)
                 fsm.put("secret.txt", crate::memsys::bytes("TOP SECRET outside .ruler"), 1, None);
                 fsm.put(".ruler/private-note", crate::memsys::bytes("inside .ruler but outside cache and history"), 1, None);
                 materialise(&fsm, &dir);
-                let srv = match start_server(&bin, &dir) { Ok(s) => s, Err(e) => { machinery.lock().unwrap().push(e); continue; } };
+                let srv = match start_server(&bin, &dir, i % 2 == 1) { Ok(s) => s, Err(e) => { machinery.lock().unwrap().push(e); continue; } };
                 // valid hashes that are not cache entries: leaf hashes, a rule ticket, an arbitrary one
                 let mut extra: Vec<String> = vec![refsha::encode62(&refsha::sha256(b"not cached anywhere")), refsha::encode62(&[0u8; 32]), refsha::encode62(&[0xff; 32])];
                 for (p, n) in fsm.map.iter() { if let Node::File(f) = n { if !p.starts_with(".ruler") { extra.push(refsha::cache_name(&f.data)); } } }
@@ -1124,7 +1143,7 @@ pub fn run_serve(rep: &mut Report, tier: &str)
             property: "C19".into(),
             signature: format!("C19:serve:{}", what),
             summary: format!("{}: {} (directory produced by {} [{}])", what, detail, sc, hist::ops_short(p)),
-            replay: json!({"engine": "serve", "scenario": sc, "ops": p, "what": what}),
+            replay: json!({"engine": "serve", "scenario": sc, "ops": p, "what": what, "alt": *i % 2 == 1}),
         });
     }
 }
@@ -1141,7 +1160,7 @@ pub fn replay_serve(v: &Value) -> i32
     fsm.put(".ruler/private-note", crate::memsys::bytes("inside .ruler but outside cache and history"), 1, None);
     let dir = scratch("serve-replay");
     materialise(&fsm, &dir);
-    let srv = match start_server(&bin, &dir) { Ok(s) => s, Err(e) => { eprintln!("{}", e); return 2; } };
+    let srv = match start_server(&bin, &dir, v["alt"].as_bool().unwrap_or(false)) { Ok(s) => s, Err(e) => { eprintln!("{}", e); return 2; } };
     let extra = vec![refsha::encode62(&refsha::sha256(b"not cached anywhere"))];
     let (mut r, mut k, mut al) = (0, 0, 0);
     let bad = serve_menu(srv.port, &fsm, &extra, &mut r, &mut k, &mut al);
